@@ -49,7 +49,10 @@ class Source:
         self.keep = []
         ev = gen.make_events(n + 2 if kind.startswith("child") else n,
                              seed=seed)
-        self.logs = {"vf-log": ["first line", "second µ line"]}
+        self.logs = {"vf-log": ["first line", "second µ line"],
+                     # more UTF-8 bytes than characters, > 100 bytes
+                     "vf-instrument": ["flow 0.04 µl/s, 23.5 °C " * 4 + "[ok]",
+                                       "short"]}
         self.tables = {"vf-tab": np.rec.fromarrays(
             [np.arange(3.0), np.arange(3.0) ** 2], names=["a", "b"])}
         base = scratch / f"c02_{tag}_{os.getpid()}"
